@@ -77,8 +77,9 @@ class SimFunction(Function):
     optional jump) followed by analytic probe components. Subclass of the library's Function, so the real
     __call__ / cache / vectorised paths run; only eval is the stub. Counts distinct points itself."""
 
-    def __init__(self, key, nnoise=1, probes=(), a=None, b=None, jump=None, offset=0.0):
+    def __init__(self, key, nnoise=1, probes=(), a=None, b=None, jump=None, offset=0.0, symmetric=False):
         super().__init__()
+        self.symmetric = symmetric      # component 0 becomes a smooth, coordinate-symmetric peak (twin errors of equal size)
         self.key = key
         self.nnoise = nnoise
         self.probes = [list(p) for p in probes]
@@ -103,6 +104,10 @@ class SimFunction(Function):
         p = tuple(float(x) for x in p)
         out = []
         for j in range(self.nnoise):
+            if j == 0 and getattr(self, "symmetric", False):
+                t = sum((x - lo) / (hi - lo) for x, lo, hi in zip(p, self.a, self.b))
+                out.append((1.0 + 2.0 * t) ** (-len(p) - 1) + self.offset)
+                continue
             v = Hs(self.key, "f", j, p) + self.offset
             if self.jump is not None and p[0] > self.jump:
                 v += 1.0
